@@ -50,6 +50,7 @@ type Frame struct {
 	depth int
 	fc    *FuncContract // contract of this frame's function (loop contracts), may be nil
 	bind  []Value       // closure bindings
+	defers []deferred
 	// for discovery: loop stack limits
 	stop map[*ssa.BasicBlock]bool
 }
@@ -117,6 +118,61 @@ type Exec struct {
 	inputObjs map[int]bool
 	lenient   bool // unknown externals return unconstrained values (package init evaluation only)
 	skipDefer bool // deferred recover-closures are skipped (see verifyFunc)
+	// recover modelling: the function under verification defers a closure that calls recover().
+	// Every potential panic then forks a path on which the deferred closures run with recover() != nil
+	// and the function returns through its Recover block; no safety/pre obligations are emitted.
+	recoverMode bool
+	panicking   bool
+	topFrame    *Frame
+	panicOuts   []Outcome
+}
+
+type deferred struct {
+	fn   VFunc
+	args []Value
+}
+
+// forkPanic explores the path on which a panic happens under condition cond.
+func (ex *Exec) forkPanic(st *State, cond *Term) {
+	if ex.inDiscovery() || ex.panicking {
+		return
+	}
+	ps := st.clone()
+	ps.assume(cond)
+	if ps.dead {
+		return
+	}
+	if !ex.feasible(ps, True) {
+		return
+	}
+	fr := ex.topFrame.clone()
+	ex.panicking = true
+	defer func() { ex.panicking = false }()
+	states := []*State{ps}
+	for i := len(fr.defers) - 1; i >= 0; i-- {
+		d := fr.defers[i]
+		var next []*State
+		for _, s := range states {
+			outs := ex.callFunc(s, fr, nil, d.fn.Fn, d.args, d.fn.Bind)
+			for _, o := range outs {
+				next = append(next, o.st)
+			}
+		}
+		states = next
+	}
+	for _, s := range states {
+		if fr.fn.Recover == nil {
+			var rets []Value
+			res := fr.fn.Signature.Results()
+			for i := 0; i < res.Len(); i++ {
+				rets = append(rets, zeroValue(res.At(i).Type()))
+			}
+			ex.panicOuts = append(ex.panicOuts, Outcome{s, rets})
+			continue
+		}
+		f2 := fr.clone()
+		ex.panicOuts = append(ex.panicOuts, ex.execBlock(s, f2, fr.fn.Recover, nil)...)
+	}
 }
 
 func (ex *Exec) evalAllocBound(st *State) *Term {
@@ -169,6 +225,11 @@ func (ex *Exec) oblName(fr *Frame, class, detail string) string {
 // safety obligation + assume it afterwards (so one defect is reported once per path)
 func (ex *Exec) safety(st *State, fr *Frame, kind string, instr ssa.Instruction, goal *Term) {
 	if goal.IsTrue() {
+		return
+	}
+	if ex.recoverMode {
+		ex.forkPanic(st, Not(goal))
+		st.assume(goal)
 		return
 	}
 	if !ex.noSafety {
@@ -384,6 +445,10 @@ func (ex *Exec) execFrom(st *State, fr *Frame, b *ssa.BasicBlock, idx int) []Out
 			}
 			return []Outcome{{st, rets}}
 		case *ssa.Panic:
+			if ex.recoverMode {
+				ex.forkPanic(st, True)
+				return nil
+			}
 			if !ex.inDiscovery() && !ex.noSafety {
 				ex.emit(st, fr, "safety/panic", ex.L.instrDetail(in), "explicit panic is unreachable", False, nil, in.Pos())
 			}
@@ -571,9 +636,22 @@ func (ex *Exec) step(st *State, fr *Frame, in ssa.Instruction) {
 	case *ssa.Lookup:
 		fr.regs[x] = ex.lookup(st, fr, x)
 	case *ssa.RunDefers:
-		// no deferred calls are modelled except the recover pattern handled at function level
+		// normal return: deferred recover-closures observe recover() == nil and do nothing
+		if len(fr.defers) > 0 && !ex.recoverMode {
+			oos("deferred calls in %s", fr.fn)
+		}
 	case *ssa.Defer:
-		if ex.skipDefer && fr.depth == 0 {
+		if ex.recoverMode && fr.depth == 0 {
+			com := x.Common()
+			fv, ok := ex.operand(st, fr, com.Value).(VFunc)
+			if !ok || fv.Fn == nil || !callsRecover(fv.Fn) {
+				oos("defer of something other than a recover closure in %s", fr.fn)
+			}
+			var args []Value
+			for _, a := range com.Args {
+				args = append(args, ex.operand(st, fr, a))
+			}
+			fr.defers = append(fr.defers, deferred{fv, args})
 			return
 		}
 		oos("defer in %s", fr.fn)
@@ -1360,7 +1438,7 @@ func (ex *Exec) loopEntry(st *State, fr *Frame, li *loopInfo, phis []*ssa.Phi) b
 		ex.havocLoop(hst, hfr, li, phis, writes, phiIn, phiOld, entryVals)
 		henv := ex.loopEnv(hst, hfr, li, phis)
 		for _, inv := range invs {
-			hst.assume(ex.evalBoolClause(hst, henv, inv))
+			ex.assumeClause(hst, henv, inv)
 		}
 		d := &discovery{loop: li, fr: hfr, writes: map[string]writeRec{}, maxObj: maxObj, phiIn: map[*ssa.Phi]bool{}, phiOld: map[*ssa.Phi]bool{}}
 		dst := hst.clone()
